@@ -21,6 +21,7 @@ STRENGTHENED = {
     "C10c": "new oracle `stiffness_mutation_sequence`: one StiffnessTensors instance is reused for several averages with its attributes reassigned in between (the documented way to set custom stiffnesses), and the default instance is checked afterwards",
     "C14c": "new exhaustive oracle `axis_aligned_pairs_exhaustive`: all 300 two-grain sets of axis-aligned orientations (misorientations exactly 0/90/120/180 degrees, on bin edges and on the end of the angle range) in several frames, triclinic and monoclinic",
     "C14b": "the uniform-texture limit is now compared with the independent correct M-index of the same texture (M <= M_ref + 0.02) instead of a loose multiple of it",
+    "C05d": "steady histories now hand the solver one and the same array object from every callback call (`lambda t, x: L`, the commonest user callable) and a fixed position likewise; every array handed out by a callback, the parameter dictionary, the starting deformation gradient and the mineral list are audited for in-place modification after every update (`hist.update`, `hist.update_bulk`)",
     "C20": "new differential part of `point_density`: raw estimates are rebuilt from the documented counting grid with pydrex's kernel functions, normalised, clipped and compared (1e-9)",
 }
 
